@@ -1,26 +1,58 @@
 // C18 — multi-threaded execution gives the single-thread result under every schedule.
 // Randomised schedule exploration with a differential oracle: the same workload with 1 thread
-// (no perturbation) vs T threads with yields/delays injected at the UCL_STIR_VERIF schedule points,
-// repeated with FRESH objects so that first-use races (lazy tables, matrix cache, per-thread images)
-// are re-armed in every repetition.  The injected schedule is a pure function of the Case.
+// (no perturbation) vs T threads with yields/delays injected at the UCL_STIR_VERIF schedule points.
+// The injected schedule is a pure function of the Case.  Two kinds of cases:
+//  (a) FRESH-OBJECT REPETITIONS (>= half of the cases): one thread count, every repetition builds new objects, so that
+//      first-use races (lazy tables, matrix cache, per-thread images) are re-armed in every repetition;
+//  (b) OBJECT-REUSE HISTORIES: a generated sequence of (thread count, how it is set, operation) steps on the SAME
+//      objects (projector pair + matrix with its cache, objective function, list-mode objective function, scatter
+//      simulation, ProjDataInfo with its lazy tables); thread counts go up and down between the steps, are set through
+//      omp_set_num_threads or stir::set_num_threads or left alone, with clear_cache / setter + set_up steps in between.
+//      Reference: the SAME history executed with one thread on a second set of objects (that is the property's
+//      "result of the single-threaded computation"; history dependence that also exists with one thread belongs to
+//      C03/C05/C16 and cancels here).  A sample of the histories runs in a FRESH PROCESS (the binary re-executes itself),
+//      because STIR's first setup_distributable_computation() resets the thread count to its default exactly once per
+//      process (stir/num_threads.h); the harness models that rule and checks the model after every step.
+// Workloads: 0 forward projection, 1 back projection, 2 log-likelihood value, 3 subset gradient, 4 subset sensitivity +
+// gradient-plus-sensitivity, 5 Hessian x vector, 6 lazily built geometry tables, 7 list-mode objective function
+// (gradient, value, Hessian x vector, sensitivity), 8 single scatter simulation.
+// Measured / additive / normalisation data are in memory or FILE-BACKED (ProjDataFromStream on files written by the
+// harness; both storage orders; optionally all data sets in one file read through ONE shared stream).
+//
+// Known finding excluded by construction (VERIF_NO_EXCLUDE=1 switches the exclusion off), see SIG_E1 below.
 #include "stir_gen.h"
+#include "c18_lm.h"
 #include "stir/num_threads.h"
 #include "stir/ProjDataInMemory.h"
+#include "stir/ProjDataFromStream.h"
 #include "stir/ExamInfo.h"
 #include "stir/SegmentByView.h"
+#include "stir/Viewgram.h"
 #include "stir/recon_buildblock/ProjMatrixByBinUsingRayTracing.h"
 #include "stir/recon_buildblock/ProjectorByBinPairUsingProjMatrixByBin.h"
 #include "stir/recon_buildblock/ForwardProjectorByBinUsingProjMatrixByBin.h"
 #include "stir/recon_buildblock/BackProjectorByBinUsingProjMatrixByBin.h"
 #include "stir/recon_buildblock/PoissonLogLikelihoodWithLinearModelForMeanAndProjData.h"
+#include "stir/recon_buildblock/PoissonLogLikelihoodWithLinearModelForMeanAndListModeDataWithProjMatrixByBin.h"
 #include "stir/recon_buildblock/BinNormalisationFromProjData.h"
 #include "stir/recon_buildblock/TrivialBinNormalisation.h"
+#include "stir/scatter/SingleScatterSimulation.h"
 #include "stir/ProjDataInfoCylindricalNoArcCorr.h"
 #include "stir/DetectionPositionPair.h"
 #include <atomic>
 #include <chrono>
 #include <thread>
+#include <fstream>
+#include <filesystem>
+#include <iostream>
 #include <sched.h>
+#include <unistd.h>
+#include <sys/wait.h>
+#include <fcntl.h>
+#include <spawn.h>
+#include <memory>
+#include <sstream>
+extern char** environ;
 #ifdef _OPENMP
 #  include <omp.h>
 #endif
@@ -64,6 +96,10 @@ ucl_stir_verif_schedule_point(int site)
   g_perturb.hits.fetch_add(1, std::memory_order_relaxed);
   if (site >= 0 && site < 24)
     g_perturb.site_thread_mask[site].fetch_or(1UL << (tid & 63), std::memory_order_relaxed);
+#ifdef _OPENMP
+  if (omp_get_num_threads() == 1)
+    return; // a team of one thread has no interleavings to perturb (delays would only cost time)
+#endif
   const long visit = t_visits++;
   const uint64_t h = mix(g_perturb.seed ^ (uint64_t(tid) << 48) ^ (uint64_t(site) << 40) ^ uint64_t(visit));
   // PCT-style: a few "low priority" threads are delayed much more often during their first visits
@@ -86,6 +122,22 @@ ucl_stir_verif_schedule_point(int site)
         }
       return;
     }
+  if (site == 12 || site == 13)
+    { // accessors of the scatter caches: visited (scatter points x detectors) times per bin, so perturb rarely
+      const unsigned q = unsigned(h % 10000);
+      if (q < (g_perturb.intensity >= 2 ? 3u : 0u) + ((low && visit < 12) ? 3000u : 0u))
+        std::this_thread::sleep_for(std::chrono::microseconds(100 + (h >> 8) % 1500));
+      else if (q < 100)
+        {
+          const auto until = std::chrono::steady_clock::now() + std::chrono::microseconds(1 + (h >> 8) % 50);
+          while (std::chrono::steady_clock::now() < until)
+            {
+            }
+        }
+      else if (q < 400)
+        sched_yield();
+      return;
+    }
   const unsigned r = unsigned(h % 100);
   const unsigned p_sleep = (g_perturb.intensity >= 2 ? 4 : 0) + ((low && visit < 12) ? 30 : 0);
   const unsigned p_spin = g_perturb.intensity >= 1 ? 12 : 0;
@@ -103,51 +155,254 @@ ucl_stir_verif_schedule_point(int site)
     sched_yield();
 }
 
+
 namespace {
 
 typedef DiscretisedDensity<3, float> target_type;
 
-struct World
-{ // everything is FRESH per repetition
-  shared_ptr<Scanner> sc;
-  shared_ptr<ProjDataInfo> pdi;
-  shared_ptr<VoxelsOnCartesianGrid<float>> image;
-  shared_ptr<ProjMatrixByBinUsingRayTracing> matrix;
-  shared_ptr<ProjectorByBinPair> pair;
-  shared_ptr<ProjDataInMemory> data, add, mult;
+// ---- known finding E1 -----------------------------------------------------------------------------------
+// BackProjectorByBin::set_up() sizes its vector of per-thread output images with the number of threads at THAT moment;
+// back_project() indexes it with omp_get_thread_num().  A back projection with more threads than at the last set_up of
+// the projector (thread count raised afterwards by omp_set_num_threads / stir::set_num_threads, or by STIR's own first
+// setup_distributable_computation() that resets the count to its default inside the objective function's set_up)
+// reads and writes beyond the vector.  Histories are rewritten at run time such that they stay outside exactly this class
+// (a set_up step is inserted before such an operation, or the thread count before an objective-function set_up is lifted
+// to the default it will be reset to); the rewriting is counted and switched off by VERIF_NO_EXCLUDE=1.
+const char* const SIG_E1 = "C18:backprojector:more-threads-than-at-set_up";
+//! set to true once the repair (work/fixes/C18_ext/01_*.diff) is committed in /repo: the class is then part of the normal search
+const bool E1_REPAIRED = true;
+bool
+exclusions_on()
+{
+  static const bool on = []() {
+    if (E1_REPAIRED)
+      return false;
+    const char* e = std::getenv("VERIF_NO_EXCLUDE");
+    return !(e && *e && std::string(e) != "0");
+  }();
+  return on;
+}
+
+// ---- temporary files: one directory per case under VERIF_TMP, removed at the end of the case ---------------
+std::string
+tmp_root()
+{
+  const char* e = std::getenv("VERIF_TMP");
+  std::string d = (e && *e) ? std::string(e) : cat("/tmp/verif_", long(getpid()));
+  std::error_code ec;
+  std::filesystem::create_directories(d, ec);
+  return d;
+}
+struct CaseDir
+{
+  std::string path;
+  CaseDir()
+  {
+    static long counter = 0;
+    path = cat(tmp_root(), "/c18_", long(getpid()), "_", counter++);
+    std::error_code ec;
+    std::filesystem::remove_all(path, ec);
+    std::filesystem::create_directories(path, ec);
+  }
+  ~CaseDir()
+  {
+    std::error_code ec;
+    std::filesystem::remove_all(path, ec);
+  }
+  std::string sub(const std::string& name) const
+  {
+    const std::string p = path + "/" + name;
+    std::error_code ec;
+    std::filesystem::create_directories(p, ec);
+    return p;
+  }
 };
 
+// ---- the number of threads: what the harness does and what STIR does on its own ---------------------------
+// stir/num_threads.h: set_num_threads(n>0) sets n; set_num_threads() [n==0] calls set_default_num_threads() if and only
+// if it is the first call of set_num_threads (with any argument) in the process; setup_distributable_computation() calls
+// set_num_threads().  g_set_once mirrors STIR's function-static flag.
+bool g_set_once = false;
+bool
+child_mode()
+{
+  static const bool on = std::getenv("VERIF_C18_CHILD") != nullptr;
+  return on;
+}
+int
+current_threads()
+{
+#ifdef _OPENMP
+  return omp_get_max_threads();
+#else
+  return 1;
+#endif
+}
+void
+threads_via_omp(int t)
+{
+#ifdef _OPENMP
+  omp_set_num_threads(t);
+#else
+  (void)t;
+#endif
+}
+void
+threads_via_stir(int t)
+{
+  stir::set_num_threads(t);
+  g_set_once = true;
+}
+
+// ---- settings that histories change -----------------------------------------------------------------------
+struct Settings
+{
+  int cache = 0, lors = 1, nsub = 1;
+  bool use_add = false, use_norm = false;
+  int act = 0; // scatter: index of the activity image
+  bool sc_cache = true;
+};
+
+Settings
+initial_settings(const json& c)
+{
+  Settings s;
+  s.cache = c["cache"].get<int>();
+  s.lors = c["lors"].get<int>();
+  s.nsub = c["subsets"].get<int>();
+  s.use_add = c["use_add"].get<bool>();
+  s.use_norm = c["use_norm"].get<bool>();
+  return s;
+}
+
+// ---- file-backed projection data ----------------------------------------------------------------------------
+long
+num_values(const ProjDataInMemory& pd)
+{
+  return long(std::distance(pd.begin_all(), pd.end_all()));
+}
+
+void
+write_to_stream(const ProjDataInMemory& src, const shared_ptr<std::iostream>& s, std::streamoff offset, ProjDataFromStream::StorageOrder order)
+{
+  ProjDataFromStream writer(src.get_exam_info_sptr(), src.get_proj_data_info_sptr(), s, offset, order);
+  for (int k = src.get_min_tof_pos_num(); k <= src.get_max_tof_pos_num(); ++k)
+    for (int seg = src.get_min_segment_num(); seg <= src.get_max_segment_num(); ++seg)
+      for (int v = src.get_min_view_num(); v <= src.get_max_view_num(); ++v)
+        if (writer.set_viewgram(src.get_viewgram(v, seg, false, k)) != Succeeded::yes)
+          throw std::logic_error("harness: writing a viewgram to the temporary file failed");
+  s->flush();
+}
+
+shared_ptr<std::iostream>
+open_stream(const std::string& path, bool write)
+{
+  shared_ptr<std::iostream> s(
+      new std::fstream(path.c_str(), write ? (std::ios::in | std::ios::out | std::ios::trunc | std::ios::binary) : (std::ios::in | std::ios::binary)));
+  if (!*s)
+    throw std::logic_error("harness: cannot open temporary file " + path);
+  return s;
+}
+
+struct World
+{
+  shared_ptr<Scanner> sc;
+  shared_ptr<ProjDataInfo> pdi;
+  shared_ptr<VoxelsOnCartesianGrid<float>> image, image2;
+  shared_ptr<ProjMatrixByBinUsingRayTracing> matrix;
+  shared_ptr<ProjectorByBinPair> pair;
+  shared_ptr<ProjData> data, add, mult; // in memory or file-backed
+  shared_ptr<ProjDataInMemory> data_mem, add_mem, mult_mem;
+};
+
+void
+apply_matrix_settings(ProjMatrixByBinUsingRayTracing& m, const Settings& st)
+{
+  m.enable_cache(st.cache != 0);
+  m.store_only_basic_bins_in_cache(st.cache == 1);
+  m.set_num_tangential_LORs(st.lors);
+}
+
+shared_ptr<ProjMatrixByBinUsingRayTracing>
+make_matrix(const json& c, const Settings& st)
+{
+  shared_ptr<ProjMatrixByBinUsingRayTracing> m(new ProjMatrixByBinUsingRayTracing());
+  apply_matrix_settings(*m, st);
+  const int sym = c["sym"].get<int>();
+  m->set_do_symmetry_90degrees_min_phi((sym & 1) != 0);
+  m->set_do_symmetry_180degrees_min_phi((sym & 2) != 0);
+  m->set_do_symmetry_swap_segment((sym & 4) != 0);
+  m->set_do_symmetry_swap_s((sym & 8) != 0);
+  m->set_do_symmetry_shift_z((sym & 16) != 0);
+  return m;
+}
+
+//! file_data: 0 in memory; 1 / 2 one file per data set, storage order Segment_View_AxialPos_TangPos /
+//! Segment_AxialPos_View_TangPos; 3 all data sets in ONE file, read through one shared stream (order 1 or 2 by the seed)
 World
-make_world(const json& c)
+make_world(const json& c, const Settings& st, const std::string& dir)
 {
   World w;
   w.sc = vg::make_scanner(c["scanner"]);
   w.pdi = vg::make_pdi(w.sc, c["pdi"]);
   w.image = vg::make_image(c["image"], *w.pdi, 7);
   vg::fill_random(*w.image, c["dseed"].get<uint64_t>(), 0.5, 2.);
-  w.matrix.reset(new ProjMatrixByBinUsingRayTracing());
-  const int cache = c["cache"].get<int>();
-  w.matrix->enable_cache(cache != 0);
-  w.matrix->store_only_basic_bins_in_cache(cache == 1);
-  w.matrix->set_num_tangential_LORs(c["lors"].get<int>());
-  const int sym = c["sym"].get<int>();
-  w.matrix->set_do_symmetry_90degrees_min_phi((sym & 1) != 0);
-  w.matrix->set_do_symmetry_180degrees_min_phi((sym & 2) != 0);
-  w.matrix->set_do_symmetry_swap_segment((sym & 4) != 0);
-  w.matrix->set_do_symmetry_swap_s((sym & 8) != 0);
-  w.matrix->set_do_symmetry_shift_z((sym & 16) != 0);
+  w.image2.reset(w.image->clone());
+  vg::fill_random(*w.image2, c["dseed"].get<uint64_t>() ^ 0x3141592ULL, 0.5, 2.);
+  w.matrix = make_matrix(c, st);
   w.pair.reset(new ProjectorByBinPairUsingProjMatrixByBin(w.matrix));
   shared_ptr<ExamInfo> exam(new ExamInfo(ImagingModality::PT));
-  w.data.reset(new ProjDataInMemory(exam, w.pdi));
-  w.add.reset(new ProjDataInMemory(exam, w.pdi));
+  w.data_mem.reset(new ProjDataInMemory(exam, w.pdi));
+  w.add_mem.reset(new ProjDataInMemory(exam, w.pdi));
   SplitMix g(c["dseed"].get<uint64_t>() ^ 0x1234567ULL);
-  for (auto it = w.data->begin_all(); it != w.data->end_all(); ++it)
+  for (auto it = w.data_mem->begin_all(); it != w.data_mem->end_all(); ++it)
     *it = float(1 + g.range(0, 20));
-  for (auto it = w.add->begin_all(); it != w.add->end_all(); ++it)
+  for (auto it = w.add_mem->begin_all(); it != w.add_mem->end_all(); ++it)
     *it = float(g.real(0.5, 1.5));
-  w.mult.reset(new ProjDataInMemory(exam, w.pdi->create_non_tof_clone()));
-  for (auto it = w.mult->begin_all(); it != w.mult->end_all(); ++it)
+  w.mult_mem.reset(new ProjDataInMemory(exam, w.pdi->create_non_tof_clone()));
+  for (auto it = w.mult_mem->begin_all(); it != w.mult_mem->end_all(); ++it)
     *it = float(g.real(0.5, 2.));
+  const int fd = c.value("file_data", 0);
+  if (fd == 0 || dir.empty())
+    {
+      w.data = w.data_mem;
+      w.add = w.add_mem;
+      w.mult = w.mult_mem;
+      return w;
+    }
+  const bool order_b = fd == 2 || (fd == 3 && (c["dseed"].get<uint64_t>() & 1) != 0);
+  const ProjDataFromStream::StorageOrder order
+      = order_b ? ProjDataFromStream::Segment_AxialPos_View_TangPos : ProjDataFromStream::Segment_View_AxialPos_TangPos;
+  if (fd == 3)
+    {
+      const std::string path = dir + "/all.s";
+      const std::streamoff o_data = 0, o_add = o_data + std::streamoff(num_values(*w.data_mem)) * 4 + 12,
+                           o_mult = o_add + std::streamoff(num_values(*w.add_mem)) * 4 + 20;
+      {
+        shared_ptr<std::iostream> s = open_stream(path, true);
+        write_to_stream(*w.data_mem, s, o_data, order);
+        write_to_stream(*w.add_mem, s, o_add, order);
+        write_to_stream(*w.mult_mem, s, o_mult, order);
+      }
+      shared_ptr<std::iostream> s = open_stream(path, false);
+      w.data.reset(new ProjDataFromStream(exam, w.data_mem->get_proj_data_info_sptr(), s, o_data, order));
+      w.add.reset(new ProjDataFromStream(exam, w.add_mem->get_proj_data_info_sptr(), s, o_add, order));
+      w.mult.reset(new ProjDataFromStream(exam, w.mult_mem->get_proj_data_info_sptr(), s, o_mult, order));
+    }
+  else
+    {
+      auto one = [&](const ProjDataInMemory& src, const std::string& name, std::streamoff off) -> shared_ptr<ProjData> {
+        const std::string path = dir + "/" + name;
+        {
+          shared_ptr<std::iostream> s = open_stream(path, true);
+          write_to_stream(src, s, off, order);
+        }
+        return shared_ptr<ProjData>(new ProjDataFromStream(exam, src.get_proj_data_info_sptr(), open_stream(path, false), off, order));
+      };
+      w.data = one(*w.data_mem, "data.s", 0);
+      w.add = one(*w.add_mem, "add.s", 8);
+      w.mult = one(*w.mult_mem, "mult.s", 0);
+    }
   return w;
 }
 
@@ -164,19 +419,226 @@ append(std::vector<double>& out, const ProjDataInMemory& pd)
     out.push_back(*it);
 }
 
-//! run the workload once with fresh objects; returns the flattened result
-std::vector<double>
-run_workload(const json& c, int threads, bool perturb, uint64_t pseed)
+void
+perturb_on(const json& c, uint64_t pseed)
 {
-  World w = make_world(c);
-  const int workload = c["workload"].get<int>();
-  stir::set_num_threads(threads);
   for (auto& m : g_perturb.site_thread_mask)
     m.store(0);
   g_perturb.seed = pseed;
   g_perturb.intensity = c["intensity"].get<int>();
   g_perturb.num_low_priority = c["lowprio"].get<int>();
-  g_perturb.enabled.store(perturb);
+  g_perturb.enabled.store(true);
+}
+void
+perturb_off()
+{
+  g_perturb.enabled.store(false);
+}
+bool
+site_hit_by_two()
+{
+  for (auto& m : g_perturb.site_thread_mask)
+    if (__builtin_popcountl(m.load()) >= 2)
+      return true;
+  return false;
+}
+
+// ---- the geometry-table workload (6) -----------------------------------------------------------------------
+//! detector pair -> bin, bin -> all detector pairs, ring pairs, m / tan(theta) for every detector pair, in a parallel
+//! loop of the harness.  3 numbers per pair: bin code (integer), number of detector pairs of the bin + a position-
+//! weighted checksum of their coordinates (multiples of 1e-6), m + 10 tan(theta).  Every number is computed by ONE
+//! thread from the (shared, lazily built) tables, so the comparison of this workload is exact.
+void
+query_tables(const ProjDataInfoCylindricalNoArcCorr* p, const Scanner& sc, bool tables_first, std::vector<double>& out)
+{
+  const int ndet = sc.get_num_detectors_per_ring(), rings = sc.get_num_rings();
+  const long n = long(ndet) * ndet * rings * rings;
+  out.assign(std::size_t(n) * 3, 0.);
+#ifdef _OPENMP
+#  pragma omp parallel for schedule(dynamic)
+#endif
+  for (long i = 0; i < n; ++i)
+    {
+      const int d1 = int(i % ndet), d2 = int((i / ndet) % ndet), r1 = int((i / (long(ndet) * ndet)) % rings),
+                r2 = int(i / (long(ndet) * ndet * rings));
+      if (d1 == d2)
+        continue;
+      Bin b;
+      double code = -1, npairs = 0, m = 0;
+      if (tables_first)
+        { // ring-difference tables are touched first through the coordinate functions
+          m = p->get_m(Bin(0, 0, 0, 0)) + p->get_tantheta(Bin(p->get_max_segment_num(), 0, 0, 0));
+        }
+      if (p->get_bin_for_det_pos_pair(b, DetectionPositionPair<>(DetectionPosition<>(d1, r1), DetectionPosition<>(d2, r2), 0)) == Succeeded::yes
+          && b.axial_pos_num() >= p->get_min_axial_pos_num(b.segment_num()) && b.axial_pos_num() <= p->get_max_axial_pos_num(b.segment_num())
+          && b.tangential_pos_num() >= p->get_min_tangential_pos_num() && b.tangential_pos_num() <= p->get_max_tangential_pos_num())
+        {
+          code = ((double(b.segment_num()) * 1000 + b.axial_pos_num()) * 1000 + b.view_num()) * 1000 + b.tangential_pos_num();
+          std::vector<DetectionPositionPair<>> dps;
+          p->get_all_det_pos_pairs_for_bin(dps, b);
+          npairs = double(dps.size());
+          for (auto& dp : dps)
+            npairs += 1e-3 * (dp.pos1().axial_coord() + 2 * dp.pos2().axial_coord()) + 1e-6 * (dp.pos1().tangential_coord());
+          m += p->get_m(b) + 10 * p->get_tantheta(b);
+        }
+      out[std::size_t(i) * 3] = code;
+      out[std::size_t(i) * 3 + 1] = npairs;
+      out[std::size_t(i) * 3 + 2] = m;
+    }
+}
+
+// ---- construction of the objects of the workloads -------------------------------------------------------------
+typedef PoissonLogLikelihoodWithLinearModelForMeanAndProjData<target_type> PDObj;
+typedef PoissonLogLikelihoodWithLinearModelForMeanAndListModeDataWithProjMatrixByBin<target_type> LMObj;
+
+shared_ptr<PDObj>
+make_pd_objective(const World& w, const Settings& st)
+{
+  shared_ptr<PDObj> obj(new PDObj);
+  obj->set_proj_data_sptr(w.data);
+  obj->set_projector_pair_sptr(w.pair);
+  obj->set_use_subset_sensitivities(true);
+  obj->set_num_subsets(st.nsub);
+  if (st.use_add)
+    obj->set_additive_proj_data_sptr(w.add);
+  if (st.use_norm)
+    obj->set_normalisation_sptr(shared_ptr<BinNormalisation>(new BinNormalisationFromProjData(w.mult)));
+  return obj;
+}
+
+struct LMWorld
+{
+  shared_ptr<c18lm::SyntheticCListModeData> lm;
+  shared_ptr<LMObj> obj;
+  long accepted = 0;
+};
+
+//! list-mode objective function on a generated event stream.  Preconditions (LM_distributable_computation:
+//! assert(!record_ptr.empty())): at least one kept prompt, and the number of kept prompts is not a multiple of
+//! 'max cache size' (that leaves an empty last batch; documented in the C14 harness) -> the cache size is adjusted.
+LMWorld
+make_lm(const json& c, const World& w, const Settings& st, const std::string& cache_dir)
+{
+  LMWorld L;
+  const json& J = c["lm"];
+  const std::vector<c18lm::Rec> recs = c18lm::make_stream(J["seed"].get<uint64_t>(), J["n"].get<long>(), *w.sc);
+  L.accepted = c18lm::count_accepted(recs, *w.pdi);
+  if (L.accepted == 0)
+    throw std::runtime_error("no prompt of the generated stream is inside the data (precondition of the list-mode computation)");
+  L.lm.reset(new c18lm::SyntheticCListModeData(recs, w.pdi));
+  L.obj.reset(new LMObj);
+  L.obj->set_input_data(static_pointer_cast<ExamData>(L.lm));
+  L.obj->set_proj_matrix(w.matrix);
+  if (st.use_add)
+    L.obj->set_additive_proj_data_sptr(w.add);
+  if (st.use_norm)
+    L.obj->set_normalisation_sptr(shared_ptr<BinNormalisation>(new BinNormalisationFromProjData(w.mult)));
+  L.obj->set_num_subsets(st.nsub);
+  L.obj->set_use_subset_sensitivities(true);
+  L.obj->set_cache_path(cache_dir);
+  L.obj->set_recompute_cache(true);
+  long cache = J["cache"].get<long>();
+  if (cache > 0 && L.accepted % cache == 0)
+    ++cache;
+  L.obj->set_cache_max_size(static_cast<unsigned long>(cache));
+  return L;
+}
+
+// ---- scatter simulation --------------------------------------------------------------------------------------
+// Preconditions (ScatterSimulation.cxx; the same as in the C16 harness): non-arc-corrected, span 1, no view mashing, non-TOF
+// template of a scanner with energy resolution and reference energy; exam info with an energy window; activity,
+// attenuation and scatter-point images with the same (min_z+max_z)*voxel_size_z (check_z_to_middle_consistent: here all
+// three share one grid); randomly_place_scatter_points=false (else rand() seeded with time()); an explicit scatter-point
+// image, so that set_up may be called repeatedly ("set_up() called twice is currently not supported" only concerns the
+// automatic down-sampling); >= 2 rings (set_up has a debug self check that reads 0 < 0 for a single ring).
+typedef VoxelsOnCartesianGrid<float> Image;
+struct ScWorld
+{
+  shared_ptr<Scanner> sc;
+  shared_ptr<ProjDataInfo> pdi;
+  shared_ptr<ExamInfo> exam;
+  shared_ptr<Image> act[2], att;
+  shared_ptr<SingleScatterSimulation> sim;
+};
+
+shared_ptr<Image>
+make_sc_image(const json& J, const Scanner& sc, uint64_t seed, double lo, double hi, double p_zero)
+{
+  const int nx = J["nx"], nz = J["nz"];
+  const double half = sc.get_inner_ring_radius() * J["extent"].get<double>();
+  const double L = sc.get_ring_spacing() * sc.get_num_rings() * J["len"].get<double>();
+  IndexRange3D range(0, nz - 1, -(nx / 2), -(nx / 2) + nx - 1, -(nx / 2), -(nx / 2) + nx - 1);
+  shared_ptr<Image> im(new Image(range, CartesianCoordinate3D<float>(0, 0, 0),
+                                 CartesianCoordinate3D<float>(float(L / (nz - 1)), float(2 * half / nx), float(2 * half / nx))));
+  SplitMix g(seed);
+  for (auto it = im->begin_all(); it != im->end_all(); ++it)
+    {
+      const bool zero = g.unit() < p_zero;
+      const double u = g.unit();
+      *it = float(zero ? 0. : lo + (hi - lo) * u);
+    }
+  return im;
+}
+
+ScWorld
+make_scatter(const json& c, const Settings& st)
+{
+  ScWorld S;
+  const json& J = c["scat"];
+  S.sc = vg::make_scanner(c["scanner"]);
+  S.pdi = vg::make_pdi(S.sc, c["pdi"]);
+  S.exam.reset(new ExamInfo(ImagingModality::PT));
+  S.exam->set_low_energy_thres(J["low"].get<float>());
+  S.exam->set_high_energy_thres(J["high"].get<float>());
+  const uint64_t seed = c["dseed"].get<uint64_t>();
+  S.act[0] = make_sc_image(J, *S.sc, seed ^ 0x11, 0.1, 1., J["p_zero"].get<double>());
+  S.act[1] = make_sc_image(J, *S.sc, seed ^ 0x22, 0.1, 1., J["p_zero"].get<double>());
+  S.att = make_sc_image(J, *S.sc, seed ^ 0x33, 0.02, 0.18, 0.15); // cm^-1, threshold 0.01
+  S.sim.reset(new SingleScatterSimulation);
+  S.sim->set_attenuation_threshold(0.01F);
+  S.sim->set_randomly_place_scatter_points(false);
+  S.sim->set_use_cache(st.sc_cache);
+  S.sim->set_exam_info(*S.exam);
+  S.sim->set_template_proj_data_info(*S.pdi);
+  S.sim->set_activity_image_sptr(S.act[st.act]);
+  S.sim->set_density_image_sptr(S.att);
+  S.sim->set_density_image_for_scatter_points_sptr(shared_ptr<const DiscretisedDensity<3, float>>(S.att->clone()));
+  return S;
+}
+
+void
+run_scatter(SingleScatterSimulation& sim, std::vector<double>& out)
+{
+  shared_ptr<ProjDataInMemory> pd(new ProjDataInMemory(sim.get_exam_info_sptr(), sim.get_template_proj_data_info_sptr()->create_shared_clone()));
+  pd->fill(-1.F); // every bin must be written
+  sim.set_output_proj_data_sptr(pd);
+  if (sim.process_data() != Succeeded::yes)
+    throw std::runtime_error("ScatterSimulation::process_data returned Succeeded::no");
+  append(out, *pd);
+}
+
+int
+workload_family(int workload)
+{ // 0 projectors, 1 projection-data objective, 2 geometry tables, 3 list-mode objective, 4 scatter simulation
+  return workload <= 1 ? 0 : workload <= 5 ? 1 : workload == 6 ? 2 : workload == 7 ? 3 : 4;
+}
+
+// ---- (a) fresh objects in every repetition ------------------------------------------------------------------------
+//! run the workload once with fresh objects; returns the flattened result
+std::vector<double>
+run_workload(const json& c, int threads, bool perturb, uint64_t pseed, const std::string& dir)
+{
+  const int workload = c["workload"].get<int>();
+  const Settings st = initial_settings(c);
+  World w;
+  ScWorld S;
+  if (workload == 8)
+    S = make_scatter(c, st);
+  else
+    w = make_world(c, st, dir);
+  threads_via_stir(threads);
+  if (perturb)
+    perturb_on(c, pseed);
   std::vector<double> out;
   try
     {
@@ -189,7 +651,6 @@ run_workload(const json& c, int threads, bool perturb, uint64_t pseed)
         }
       else if (workload == 6)
         { // lazily built geometry tables used concurrently from the first call on (fresh ProjDataInfo):
-          // detector pair -> bin, bin -> all detector pairs, ring pairs, m / tan(theta)
           // a ProjDataInfo object nobody has asked anything yet: its tables are built inside the parallel loop
           const shared_ptr<ProjDataInfo> fresh_pdi = vg::make_pdi(w.sc, c["pdi"]);
           // the constructor builds the ring-difference tables eagerly; every geometry setter re-arms their lazy
@@ -200,41 +661,7 @@ run_workload(const json& c, int threads, bool perturb, uint64_t pseed)
           const ProjDataInfoCylindricalNoArcCorr* p = dynamic_cast<const ProjDataInfoCylindricalNoArcCorr*>(fresh_pdi.get());
           if (!p)
             throw std::runtime_error("workload 6 needs cylindrical no-arc-correction data");
-          const int ndet = w.sc->get_num_detectors_per_ring(), rings = w.sc->get_num_rings();
-          const long n = long(ndet) * ndet * rings * rings;
-          out.assign(std::size_t(n) * 3, 0.);
-          const bool tables_first = c["subset"].get<int>() % 2 == 0;
-#ifdef _OPENMP
-#  pragma omp parallel for schedule(dynamic)
-#endif
-          for (long i = 0; i < n; ++i)
-            {
-              const int d1 = int(i % ndet), d2 = int((i / ndet) % ndet), r1 = int((i / (long(ndet) * ndet)) % rings),
-                        r2 = int(i / (long(ndet) * ndet * rings));
-              if (d1 == d2)
-                continue;
-              Bin b;
-              double code = -1, npairs = 0, m = 0;
-              if (tables_first)
-                { // ring-difference tables are touched first through the coordinate functions
-                  m = p->get_m(Bin(0, 0, 0, 0)) + p->get_tantheta(Bin(p->get_max_segment_num(), 0, 0, 0));
-                }
-              if (p->get_bin_for_det_pos_pair(b, DetectionPositionPair<>(DetectionPosition<>(d1, r1), DetectionPosition<>(d2, r2), 0)) == Succeeded::yes
-                  && b.axial_pos_num() >= p->get_min_axial_pos_num(b.segment_num()) && b.axial_pos_num() <= p->get_max_axial_pos_num(b.segment_num())
-                  && b.tangential_pos_num() >= p->get_min_tangential_pos_num() && b.tangential_pos_num() <= p->get_max_tangential_pos_num())
-                {
-                  code = ((double(b.segment_num()) * 1000 + b.axial_pos_num()) * 1000 + b.view_num()) * 1000 + b.tangential_pos_num();
-                  std::vector<DetectionPositionPair<>> dps;
-                  p->get_all_det_pos_pairs_for_bin(dps, b);
-                  npairs = double(dps.size());
-                  for (auto& dp : dps)
-                    npairs += 1e-3 * (dp.pos1().axial_coord() + 2 * dp.pos2().axial_coord()) + 1e-6 * (dp.pos1().tangential_coord());
-                  m += p->get_m(b) + 10 * p->get_tantheta(b);
-                }
-              out[std::size_t(i) * 3] = code;
-              out[std::size_t(i) * 3 + 1] = npairs;
-              out[std::size_t(i) * 3 + 2] = m;
-            }
+          query_tables(p, *w.sc, c["subset"].get<int>() % 2 == 0, out);
         }
       else if (workload == 1)
         { // back projection of a whole data set
@@ -243,21 +670,42 @@ run_workload(const json& c, int threads, bool perturb, uint64_t pseed)
           w.pair->get_back_projector_sptr()->back_project(*res, *w.data);
           append(out, *res);
         }
+      else if (workload == 7)
+        { // list-mode objective function: gradient (data term), value, Hessian x vector, sensitivity
+          LMWorld L = make_lm(c, w, st, dir.empty() ? tmp_root() : dir);
+          shared_ptr<target_type> target(w.image->clone());
+          if (L.obj->set_up(target) != Succeeded::yes)
+            {
+              perturb_off();
+              throw std::runtime_error("list-mode objective function set_up failed");
+            }
+          const int subset = c["subset"].get<int>() % L.obj->get_num_subsets();
+          shared_ptr<target_type> grad(target->get_empty_copy());
+          L.obj->compute_sub_gradient_without_penalty_plus_sensitivity(*grad, *target, subset);
+          append(out, *grad);
+          out.push_back(L.obj->compute_objective_function_without_penalty(*target, subset));
+          shared_ptr<target_type> res(target->get_empty_copy());
+          L.obj->accumulate_sub_Hessian_times_input_without_penalty(*res, *target, *w.image2, subset);
+          append(out, *res);
+          append(out, L.obj->get_subset_sensitivity(subset));
+        }
+      else if (workload == 8)
+        {
+          if (S.sim->set_up() != Succeeded::yes)
+            {
+              perturb_off();
+              throw std::runtime_error("scatter simulation set_up failed");
+            }
+          run_scatter(*S.sim, out);
+        }
       else
         {
-          PoissonLogLikelihoodWithLinearModelForMeanAndProjData<target_type> obj;
-          obj.set_proj_data_sptr(w.data);
-          obj.set_projector_pair_sptr(w.pair);
-          obj.set_use_subset_sensitivities(true);
-          obj.set_num_subsets(c["subsets"].get<int>());
-          if (c["use_add"].get<bool>())
-            obj.set_additive_proj_data_sptr(w.add);
-          if (c["use_norm"].get<bool>())
-            obj.set_normalisation_sptr(shared_ptr<BinNormalisation>(new BinNormalisationFromProjData(w.mult)));
+          shared_ptr<PDObj> objp = make_pd_objective(w, st);
+          PDObj& obj = *objp;
           shared_ptr<target_type> target(w.image->clone());
           if (obj.set_up(target) != Succeeded::yes)
             {
-              g_perturb.enabled.store(false);
+              perturb_off();
               throw std::runtime_error("objective function set_up failed");
             }
           const int subset = c["subset"].get<int>() % obj.get_num_subsets();
@@ -279,31 +727,778 @@ run_workload(const json& c, int threads, bool perturb, uint64_t pseed)
           else
             {
               shared_ptr<target_type> res(target->get_empty_copy());
-              shared_ptr<target_type> dir(target->clone());
-              vg::fill_random(*dir, c["dseed"].get<uint64_t>() ^ 0x77, 0.1, 1.);
-              obj.accumulate_sub_Hessian_times_input(*res, *target, *dir, subset);
+              shared_ptr<target_type> dir_im(target->clone());
+              vg::fill_random(*dir_im, c["dseed"].get<uint64_t>() ^ 0x77, 0.1, 1.);
+              obj.accumulate_sub_Hessian_times_input(*res, *target, *dir_im, subset);
               append(out, *res);
             }
         }
     }
   catch (...)
     {
-      g_perturb.enabled.store(false);
-      stir::set_num_threads(1);
+      perturb_off();
+      threads_via_stir(1);
       throw;
     }
-  g_perturb.enabled.store(false);
-  stir::set_num_threads(1);
+  perturb_off();
+  threads_via_stir(1);
   return out;
 }
 
-Result
-check(const json& c)
+//! comparison of one result with its single-thread reference.  Tolerance: 1e-4 of the maximum of the reference (float
+//! reassociation of per-thread partial sums; observed maxima are in the evidence); exact for the geometry tables
+//! (integer-valued bin codes / counts; every number is computed by one thread) and for an all-zero reference; 1e-6 for the
+//! scatter simulation (every bin is computed by one thread, cached integrals are the same floats: observed difference 0).
+bool
+compare(const std::vector<double>& got, const std::vector<double>& ref, int workload, const std::string& what, std::string& msg, double* scale_out = nullptr)
 {
-  std::vector<double> ref;
+  if (got.size() != ref.size())
+    {
+      msg = cat(what, ": result size differs: ", got.size(), " vs ", ref.size());
+      return false;
+    }
+  double scale = 0;
+  for (double v : ref)
+    scale = std::max(scale, std::fabs(v));
+  if (scale_out)
+    *scale_out = scale;
+  double maxdiff = 0;
+  std::size_t where = 0;
+  for (std::size_t i = 0; i < ref.size(); ++i)
+    {
+      const double d = std::fabs(got[i] - ref[i]);
+      if (!(d <= maxdiff))
+        {
+          maxdiff = d;
+          where = i;
+        }
+    }
+  if (scale > 0)
+    stats().maxi(cat("max rel diff workload ", workload), maxdiff / scale);
+  const double tol = workload == 6 ? 0. : workload == 8 ? 1e-6 : 1e-4;
+  if (!(maxdiff <= tol * scale))
+    {
+      msg = cat(what, " differs from the single-thread result: |diff|=", maxdiff, " at element ", where, " (", ref.empty() ? 0. : got[where], " vs ",
+                ref.empty() ? 0. : ref[where], "), scale ", scale);
+      return false;
+    }
+  return true;
+}
+
+// ---- (b) object-reuse histories -----------------------------------------------------------------------------------
+enum StepFlags
+{
+  F_BP = 1,       // uses the per-thread output images of a BackProjectorByBin
+  F_SETUP = 2,    // (re-)sets up the projectors at the thread count of that moment
+  F_IMPLICIT = 4, // reaches setup_distributable_computation(), i.e. STIR's own set_num_threads()
+  F_RESULT = 8    // produces a result that is compared
+};
+
+struct Step
+{
+  int T, via; // via: 0 omp_set_num_threads(T), 1 stir::set_num_threads(T), 2 thread count left as it is
+  int code, a, b;
+  bool inserted;
+};
+
+//! one family of objects that live through a history
+struct Family
+{
+  virtual ~Family() {}
+  virtual int num_codes() const = 0;
+  virtual int flags(int code) const = 0;
+  virtual int setup_code() const = 0;
+  virtual const char* name(int code) const = 0;
+  virtual void exec(int code, int a, int b, std::vector<double>& out) = 0;
+  virtual Settings settings() const { return Settings(); }
+};
+
+std::vector<int>
+subset_choice(int views, int b, int& subset)
+{ // number of subsets: a divisor of the number of views (balanced), as for the objective functions
+  const std::vector<int> d = vg::divisors(views);
+  const int nsub = d[std::size_t(b) % d.size()];
+  subset = (b / 16) % nsub;
+  return { nsub };
+}
+
+// -- projector pair + matrix with its cache
+struct FamProjectors : Family
+{
+  Settings settings() const override { return st; }
+  enum
+  {
+    FWD = 0,
+    BACK,
+    FWD2,
+    BACK2,
+    CLEAR_CACHE,
+    SET_UP,
+    SET_CACHE,
+    SET_LORS,
+    N
+  };
+  World w;
+  Settings st;
+  FamProjectors(const json& c, const std::string& dir, const Settings* o)
+      : st(o ? *o : initial_settings(c))
+  {
+    w = make_world(c, st, dir);
+  }
+  int num_codes() const override { return N; }
+  int setup_code() const override { return SET_UP; }
+  int flags(int code) const override
+  {
+    switch (code)
+      {
+      case FWD:
+      case FWD2:
+        return F_RESULT;
+      case BACK:
+      case BACK2:
+        return F_RESULT | F_BP;
+      case CLEAR_CACHE:
+        return 0;
+      default:
+        return F_SETUP;
+      }
+  }
+  const char* name(int code) const override
+  {
+    static const char* n[] = { "forward_project", "back_project", "forward_project", "back_project", "clear_cache", "set_up", "cache mode + set_up", "num_tangential_LORs + set_up" };
+    return n[code];
+  }
+  void exec(int code, int a, int b, std::vector<double>& out) override
+  {
+    int subset = 0;
+    const int nsub = subset_choice(w.pdi->get_num_views(), b, subset)[0];
+    switch (code)
+      {
+      case FWD:
+      case FWD2:
+        {
+          ProjDataInMemory res(w.data->get_exam_info_sptr(), w.pdi);
+          w.pair->get_forward_projector_sptr()->forward_project(res, a % 2 ? *w.image2 : *w.image, subset, nsub);
+          append(out, res);
+          break;
+        }
+      case BACK:
+      case BACK2:
+        {
+          shared_ptr<target_type> res(w.image->get_empty_copy());
+          w.pair->get_back_projector_sptr()->back_project(*res, *w.data, subset, nsub);
+          append(out, *res);
+          break;
+        }
+      case CLEAR_CACHE:
+        w.matrix->clear_cache();
+        break;
+      case SET_CACHE:
+        st.cache = a % 3;
+        apply_matrix_settings(*w.matrix, st);
+        w.pair->set_up(w.pdi, w.image);
+        break;
+      case SET_LORS:
+        st.lors = 1 + a % 2;
+        apply_matrix_settings(*w.matrix, st);
+        w.pair->set_up(w.pdi, w.image);
+        break;
+      default:
+        w.pair->set_up(w.pdi, w.image);
+      }
+  }
+};
+
+// -- objective function for projection data (owns the projector pair, which is also used directly)
+struct FamObjective : Family
+{
+  Settings settings() const override { return st; }
+  enum
+  {
+    VALUE = 0,
+    GRAD,
+    GRADPLUS,
+    SENS,
+    HESS,
+    HESS_APPROX,
+    SET_UP,
+    CLEAR_CACHE,
+    SET_NSUB,
+    PAIR_BACK,
+    GRAD2,
+    HESS2,
+    N
+  };
+  World w;
+  Settings st;
+  shared_ptr<PDObj> obj;
+  shared_ptr<target_type> target, target2, dir_im;
+  FamObjective(const json& c, const std::string& dir, const Settings* o)
+      : st(o ? *o : initial_settings(c))
+  {
+    w = make_world(c, st, dir);
+    obj = make_pd_objective(w, st);
+    target.reset(w.image->clone());
+    target2.reset(w.image2->clone());
+    dir_im.reset(w.image->clone());
+    vg::fill_random(*dir_im, c["dseed"].get<uint64_t>() ^ 0x77, 0.1, 1.);
+  }
+  int num_codes() const override { return N; }
+  int setup_code() const override { return SET_UP; }
+  int flags(int code) const override
+  {
+    switch (code)
+      {
+      case VALUE:
+        return F_RESULT | F_IMPLICIT;
+      case GRAD:
+      case GRAD2:
+      case GRADPLUS:
+        return F_RESULT | F_IMPLICIT | F_BP;
+      case SENS:
+        return F_RESULT;
+      case HESS:
+      case HESS2:
+      case HESS_APPROX:
+      case PAIR_BACK:
+        return F_RESULT | F_BP;
+      case CLEAR_CACHE:
+        return 0;
+      default: // set_up: projector set_up, then (first time in the process) the reset of the thread count, then the sensitivities
+        return F_SETUP | F_IMPLICIT | F_BP;
+      }
+  }
+  const char* name(int code) const override
+  {
+    static const char* n[] = { "compute_objective_function", "compute_sub_gradient", "compute_sub_gradient_without_penalty_plus_sensitivity",
+                               "get_subset_sensitivity", "accumulate_sub_Hessian_times_input", "add_multiplication_with_approximate_sub_Hessian",
+                               "set_up", "clear_cache", "set_num_subsets + set_up", "back_project with the objective function's projector pair",
+                               "compute_sub_gradient", "accumulate_sub_Hessian_times_input" };
+    return n[code];
+  }
+  void do_set_up()
+  {
+    if (obj->set_up(target) != Succeeded::yes)
+      throw std::runtime_error("objective function set_up failed");
+  }
+  void exec(int code, int a, int b, std::vector<double>& out) override
+  {
+    const int subset = b % obj->get_num_subsets();
+    const target_type& cur = a % 2 ? *target2 : *target;
+    switch (code)
+      {
+      case VALUE:
+        out.push_back(obj->compute_objective_function(cur));
+        break;
+      case GRAD:
+      case GRAD2:
+        {
+          shared_ptr<target_type> g(target->get_empty_copy());
+          obj->compute_sub_gradient(*g, cur, subset);
+          append(out, *g);
+          break;
+        }
+      case GRADPLUS:
+        {
+          shared_ptr<target_type> g(target->get_empty_copy());
+          obj->compute_sub_gradient_without_penalty_plus_sensitivity(*g, cur, subset);
+          append(out, *g);
+          break;
+        }
+      case SENS:
+        append(out, obj->get_subset_sensitivity(subset));
+        break;
+      case HESS:
+      case HESS2:
+        {
+          shared_ptr<target_type> r(target->get_empty_copy());
+          obj->accumulate_sub_Hessian_times_input(*r, cur, *dir_im, subset);
+          append(out, *r);
+          break;
+        }
+      case HESS_APPROX:
+        {
+          shared_ptr<target_type> r(target->get_empty_copy());
+          obj->add_multiplication_with_approximate_sub_Hessian(*r, *dir_im, subset);
+          append(out, *r);
+          break;
+        }
+      case CLEAR_CACHE:
+        w.matrix->clear_cache();
+        break;
+      case SET_NSUB:
+        {
+          const std::vector<int> d = vg::divisors(w.pdi->get_num_views());
+          st.nsub = d[std::size_t(a) % d.size()];
+          obj->set_num_subsets(st.nsub);
+          do_set_up();
+          break;
+        }
+      case PAIR_BACK:
+        {
+          shared_ptr<target_type> r(target->get_empty_copy());
+          w.pair->get_back_projector_sptr()->back_project(*r, *w.data);
+          append(out, *r);
+          break;
+        }
+      default:
+        do_set_up();
+      }
+  }
+};
+
+// -- ProjDataInfo with its lazily built tables
+struct FamTables : Family
+{
+  enum
+  {
+    QUERY = 0,
+    REARM,
+    QUERY_TABLES_FIRST,
+    N
+  };
+  shared_ptr<Scanner> sc;
+  shared_ptr<ProjDataInfo> pdi;
+  const ProjDataInfoCylindricalNoArcCorr* p;
+  FamTables(const json& c)
+  {
+    sc = vg::make_scanner(c["scanner"]);
+    pdi = vg::make_pdi(sc, c["pdi"]);
+    p = dynamic_cast<const ProjDataInfoCylindricalNoArcCorr*>(pdi.get());
+    if (!p)
+      throw std::runtime_error("workload 6 needs cylindrical no-arc-correction data");
+  }
+  int num_codes() const override { return N; }
+  int setup_code() const override { return REARM; }
+  int flags(int code) const override { return code == REARM ? 0 : F_RESULT; }
+  const char* name(int code) const override
+  {
+    static const char* n[] = { "table look-ups", "set_ring_spacing (re-arms the lazy tables)", "table look-ups (coordinates first)" };
+    return n[code];
+  }
+  void exec(int code, int, int, std::vector<double>& out) override
+  {
+    if (code == REARM)
+      { // every geometry setter re-arms the lazy construction of the ring-difference tables (ProjDataInfoCylindrical.h)
+        ProjDataInfoCylindrical* pc = dynamic_cast<ProjDataInfoCylindrical*>(pdi.get());
+        pc->set_ring_spacing(pc->get_ring_spacing());
+      }
+    else
+      query_tables(p, *sc, code == QUERY_TABLES_FIRST, out);
+  }
+};
+
+// -- list-mode objective function
+struct FamListMode : Family
+{
+  Settings settings() const override { return st; }
+  enum
+  {
+    GRADPLUS = 0,
+    GRAD,
+    VALUE,
+    HESS,
+    SENS,
+    SET_UP,
+    CLEAR_CACHE,
+    GRADPLUS2,
+    N
+  };
+  World w;
+  Settings st;
+  LMWorld L;
+  shared_ptr<target_type> target, target2, dir_im;
+  FamListMode(const json& c, const std::string& dir, const std::string& cache_dir, const Settings* o)
+      : st(o ? *o : initial_settings(c))
+  {
+    w = make_world(c, st, dir);
+    L = make_lm(c, w, st, cache_dir);
+    target.reset(w.image->clone());
+    target2.reset(w.image2->clone());
+    dir_im.reset(w.image->clone());
+    vg::fill_random(*dir_im, c["dseed"].get<uint64_t>() ^ 0x77, 0.1, 1.);
+  }
+  int num_codes() const override { return N; }
+  int setup_code() const override { return SET_UP; }
+  int flags(int code) const override
+  {
+    // set_up: the sensitivity back projector is set up and used in the same call, with the same number of threads;
+    // the gradient / value / Hessian use local per-thread images sized by omp_get_max_threads() at the call
+    return code == SET_UP ? (F_SETUP | F_BP) : code == CLEAR_CACHE ? 0 : F_RESULT;
+  }
+  const char* name(int code) const override
+  {
+    static const char* n[] = { "LM compute_sub_gradient_without_penalty_plus_sensitivity", "LM compute_sub_gradient_without_penalty",
+                               "LM compute_objective_function_without_penalty", "LM accumulate_sub_Hessian_times_input_without_penalty",
+                               "LM get_subset_sensitivity", "LM set_up", "clear_cache", "LM compute_sub_gradient_without_penalty_plus_sensitivity" };
+    return n[code];
+  }
+  void exec(int code, int a, int b, std::vector<double>& out) override
+  {
+    const int subset = b % L.obj->get_num_subsets();
+    const target_type& cur = a % 2 ? *target2 : *target;
+    shared_ptr<target_type> r(target->get_empty_copy());
+    switch (code)
+      {
+      case GRADPLUS:
+      case GRADPLUS2:
+        L.obj->compute_sub_gradient_without_penalty_plus_sensitivity(*r, cur, subset);
+        append(out, *r);
+        break;
+      case GRAD:
+        L.obj->compute_sub_gradient_without_penalty(*r, cur, subset);
+        append(out, *r);
+        break;
+      case VALUE:
+        out.push_back(L.obj->compute_objective_function_without_penalty(cur, subset));
+        break;
+      case HESS:
+        L.obj->accumulate_sub_Hessian_times_input_without_penalty(*r, cur, *dir_im, subset);
+        append(out, *r);
+        break;
+      case SENS:
+        append(out, L.obj->get_subset_sensitivity(subset));
+        break;
+      case CLEAR_CACHE:
+        w.matrix->clear_cache();
+        break;
+      default:
+        if (L.obj->set_up(target) != Succeeded::yes)
+          throw std::runtime_error("list-mode objective function set_up failed");
+      }
+  }
+};
+
+// -- scatter simulation with its two caches
+struct FamScatter : Family
+{
+  Settings settings() const override { return st; }
+  enum
+  {
+    PROCESS = 0,
+    SET_UP,
+    TOGGLE_CACHE,
+    SET_ACT,
+    PROCESS2,
+    N
+  };
+  Settings st;
+  ScWorld S;
+  FamScatter(const json& c, const Settings* o)
+      : st(o ? *o : initial_settings(c))
+  {
+    S = make_scatter(c, st);
+  }
+  int num_codes() const override { return N; }
+  int setup_code() const override { return SET_UP; }
+  int flags(int code) const override { return (code == PROCESS || code == PROCESS2) ? F_RESULT : F_SETUP; }
+  const char* name(int code) const override
+  {
+    static const char* n[] = { "scatter process_data", "scatter set_up", "scatter set_use_cache + set_up", "scatter set_activity_image_sptr + set_up", "scatter process_data" };
+    return n[code];
+  }
+  void do_set_up()
+  {
+    if (S.sim->set_up() != Succeeded::yes)
+      throw std::runtime_error("scatter simulation set_up failed");
+  }
+  void exec(int code, int a, int, std::vector<double>& out) override
+  {
+    switch (code)
+      {
+      case PROCESS:
+      case PROCESS2:
+        run_scatter(*S.sim, out);
+        break;
+      case TOGGLE_CACHE:
+        // removes both caches.  The cache arrays are only allocated by set_up() (initialise_cache_for_...), and set_use_cache()
+        // does not mark the object as not set up: switching the cache ON without a new set_up indexes empty arrays even with
+        // one thread (not a subject of C18; the C16 harness also follows the setter by set_up) -> always followed by set_up
+        st.sc_cache = !st.sc_cache;
+        S.sim->set_use_cache(st.sc_cache);
+        do_set_up();
+        break;
+      case SET_ACT:
+        st.act = a % 2;
+        S.sim->set_activity_image_sptr(S.act[st.act]);
+        do_set_up();
+        break;
+      default:
+        do_set_up();
+      }
+  }
+};
+
+std::unique_ptr<Family>
+make_family(const json& c, const CaseDir& dir, const std::string& tag, const Settings* o = nullptr)
+{
+  switch (workload_family(c["workload"].get<int>()))
+    {
+    case 0:
+      return std::unique_ptr<Family>(new FamProjectors(c, dir.sub(tag), o));
+    case 1:
+      return std::unique_ptr<Family>(new FamObjective(c, dir.sub(tag), o));
+    case 2:
+      return std::unique_ptr<Family>(new FamTables(c));
+    case 3:
+      return std::unique_ptr<Family>(new FamListMode(c, dir.sub(tag), dir.sub(tag + "_lmcache"), o));
+    default:
+      return std::unique_ptr<Family>(new FamScatter(c, o));
+    }
+}
+
+//! the thread count STIR itself would set: model of stir/num_threads.h
+struct ThreadModel
+{
+  int cur;
+  bool once;
+  int bp; // size of the back projector's vector of per-thread images (0: not set up)
+  void apply(const Step& s)
+  {
+    if (s.via == 0)
+      cur = s.T;
+    else if (s.via == 1)
+      {
+        cur = s.T;
+        once = true;
+      }
+  }
+  //! returns true if the operation back-projects with more threads than the projector was set up for (class E1)
+  bool after_op(int flags, int default_threads)
+  {
+    if (flags & F_SETUP)
+      bp = cur;
+    if ((flags & F_IMPLICIT) && !once)
+      {
+        cur = default_threads;
+        once = true;
+      }
+    return (flags & F_BP) && cur > bp;
+  }
+};
+
+std::vector<Step>
+decode_steps(const json& c, const Family& fam)
+{
+  std::vector<Step> v;
+  // every history starts with a set_up at the thread count of its "init" entry
+  {
+    const json& i = c["init"];
+    v.push_back(Step{ int(std::max(1L, i[0].get<long>())), int(i[1].get<long>() % 3), fam.setup_code(), 0, 0, false });
+  }
+  for (const json& o : c["ops"])
+    {
+      if (!o.is_array() || o.size() < 5)
+        continue;
+      Step s;
+      s.T = int(std::max(1L, std::min(64L, std::labs(o[0].get<long>()))));
+      s.via = int(std::labs(o[1].get<long>()) % 3);
+      s.code = int(std::labs(o[2].get<long>()) % fam.num_codes());
+      s.a = int(std::labs(o[3].get<long>()) % 1000);
+      s.b = int(std::labs(o[4].get<long>()) % 1000);
+      s.inserted = false;
+      v.push_back(s);
+    }
+  return v;
+}
+
+//! rewrites a history such that it stays outside the known-finding class E1; returns the number of changes
+int
+avoid_e1(std::vector<Step>& steps, const Family& fam, ThreadModel m, int default_threads)
+{
+  int changes = 0;
+  for (std::size_t k = 0; k < steps.size(); ++k)
+    {
+      ThreadModel t = m;
+      t.apply(steps[k]);
+      const int fl = fam.flags(steps[k].code);
+      if (t.after_op(fl, default_threads))
+        {
+          ++changes;
+          if (fl & F_SETUP)
+            { // the reset of the thread count inside this set_up raises it: set up with that many threads
+              steps[k].T = default_threads;
+              steps[k].via = 0;
+            }
+          else
+            {
+              Step ins{ steps[k].T, steps[k].via, fam.setup_code(), 0, 0, true };
+              steps[k].via = 2;
+              steps.insert(steps.begin() + std::ptrdiff_t(k), ins);
+            }
+          --k; // re-examine
+          if (changes > 1000)
+            throw std::logic_error("harness: avoid_e1 does not terminate");
+          continue;
+        }
+      m = t;
+    }
+  return changes;
+}
+
+bool
+history_in_e1(const std::vector<Step>& steps, const Family& fam, ThreadModel m, int default_threads)
+{
+  for (const Step& s : steps)
+    {
+      m.apply(s);
+      if (m.after_op(fam.flags(s.code), default_threads))
+        return true;
+    }
+  return false;
+}
+
+struct Record
+{
+  std::size_t step;
+  int code, threads, a, b;
+  Settings st;
+  std::vector<double> out;
+};
+
+struct HistoryRun
+{
+  std::vector<Record> records;
+  bool multi_site = false;
+  std::string model_error;
+  int max_threads = 1, thread_changes_down = 0, thread_changes_up = 0;
+  int implicit_resets = 0, implicit_reset_lowers = 0;
+};
+
+//! executes the steps on the family's objects.  single: every step with one thread, no perturbation (the reference).
+HistoryRun
+run_history(const json& c, Family& fam, const std::vector<Step>& steps, bool single, uint64_t pseed, int default_threads)
+{
+  HistoryRun R;
+  if (single)
+    threads_via_stir(1); // (the reference always comes second: STIR's one-time reset has happened or cannot happen any more)
+  ThreadModel m{ current_threads(), g_set_once, 0 };
+  int prev = -1;
   try
     {
-      ref = run_workload(c, 1, false, 0);
+      for (std::size_t k = 0; k < steps.size(); ++k)
+        {
+          const Step& s = steps[k];
+          if (single)
+            threads_via_omp(1);
+          else
+            {
+              if (s.via == 0)
+                threads_via_omp(s.T);
+              else if (s.via == 1)
+                threads_via_stir(s.T);
+              m.apply(s);
+            }
+          const int fl = fam.flags(s.code);
+          std::vector<double> out;
+          if (!single)
+            perturb_on(c, pseed + uint64_t(k) * 7919ULL);
+          fam.exec(s.code, s.a, s.b, out);
+          perturb_off();
+          if (!single)
+            {
+              const bool reset = (fl & F_IMPLICIT) && !m.once;
+              const int before = m.cur;
+              m.after_op(fl, default_threads);
+              if (reset)
+                {
+                  ++R.implicit_resets;
+                  if (m.cur < before)
+                    ++R.implicit_reset_lowers;
+                }
+              if (fl & F_IMPLICIT)
+                g_set_once = true;
+              R.multi_site = R.multi_site || site_hit_by_two();
+              if (current_threads() != m.cur && R.model_error.empty())
+                R.model_error = cat("after step ", k, " (", fam.name(s.code), ") omp_get_max_threads() is ", current_threads(),
+                                    " but stir/num_threads.h documents ", m.cur);
+              R.max_threads = std::max(R.max_threads, current_threads());
+              if (prev > 0 && current_threads() < prev)
+                ++R.thread_changes_down;
+              if (prev > 0 && current_threads() > prev)
+                ++R.thread_changes_up;
+              prev = current_threads();
+            }
+          if (fl & F_RESULT)
+            R.records.push_back(Record{ k, s.code, current_threads(), s.a, s.b, fam.settings(), std::move(out) });
+        }
+    }
+  catch (...)
+    {
+      perturb_off();
+      threads_via_stir(1);
+      throw;
+    }
+  threads_via_stir(1);
+  return R;
+}
+
+std::string
+step_text(const Family& fam, const std::vector<Step>& steps, std::size_t upto)
+{
+  std::ostringstream s;
+  for (std::size_t k = 0; k <= upto && k < steps.size(); ++k)
+    s << (k ? "; " : "") << (steps[k].via == 0 ? "omp:" : steps[k].via == 1 ? "stir:" : "keep:") << steps[k].T << " " << fam.name(steps[k].code)
+      << (steps[k].inserted ? " [inserted]" : "");
+  return s.str();
+}
+
+Result
+check_history_here(const json& c)
+{
+  CaseDir dir;
+  const int workload = c["workload"].get<int>();
+  const int default_threads = stir::get_default_num_threads();
+  if (!child_mode())
+    threads_via_stir(1); // in-process cases do not depend on their position in the process: STIR's one-time reset is over
+  std::unique_ptr<Family> fam, ref_fam;
+  std::vector<Step> steps;
+  try
+    {
+      fam = make_family(c, dir, "t");
+      ref_fam = make_family(c, dir, "r");
+      steps = decode_steps(c, *fam);
+    }
+  catch (const stir_verif::AssertionFailure&)
+    {
+      throw;
+    }
+  catch (const std::logic_error&)
+    {
+      throw;
+    }
+  catch (const std::exception& e)
+    {
+      return Result::reject(std::string("construction rejected: ") + std::string(e.what()).substr(0, 80));
+    }
+  const ThreadModel m0{ current_threads(), g_set_once, 0 };
+  if (exclusions_on() && c.value("rewrite", true))
+    {
+      const int n = avoid_e1(steps, *fam, m0, default_threads);
+      if (n > 0)
+        {
+          stats().excluded_known++;
+          stats().count(std::string("excluded:") + SIG_E1);
+          stats().count("set_up steps inserted / thread counts lifted to stay outside E1", n);
+        }
+    }
+  HistoryRun T, Rf;
+  std::string test_exception;
+  try
+    {
+      T = run_history(c, *fam, steps, false, c["pseed"].get<uint64_t>(), default_threads);
+    }
+  catch (const stir_verif::AssertionFailure& e)
+    {
+      test_exception = std::string("ASSERT ") + e.what();
+    }
+  catch (const std::exception& e)
+    {
+      test_exception = e.what();
+    }
+  try
+    {
+      Rf = run_history(c, *ref_fam, steps, true, 0, default_threads);
     }
   catch (const stir_verif::AssertionFailure&)
     {
@@ -311,13 +1506,200 @@ check(const json& c)
     }
   catch (const std::exception& e)
     {
-      return Result::reject(std::string("single-thread run rejected: ") + e.what());
+      return Result::reject(std::string("single-thread run rejected: ") + std::string(e.what()).substr(0, 80));
+    }
+  if (!test_exception.empty())
+    return Result::fail(cat("history [", step_text(*fam, steps, steps.size()), "] threw with several threads but not with one: ", test_exception));
+  VF_CHECK(T.model_error.empty(), T.model_error, " | history [", step_text(*fam, steps, steps.size()), "]");
+  VF_CHECK(T.records.size() == Rf.records.size(), "number of results differs: ", T.records.size(), " vs ", Rf.records.size());
+  bool any_scale = false;
+  for (std::size_t r = 0; r < T.records.size(); ++r)
+    {
+      std::string msg;
+      double scale = 0;
+      const bool ok = compare(T.records[r].out, Rf.records[r].out, workload,
+                              cat("step ", T.records[r].step, " (", fam->name(T.records[r].code), ", ", T.records[r].threads, " threads) of the history [",
+                                  step_text(*fam, steps, T.records[r].step), "]"),
+                              msg, &scale);
+      any_scale = any_scale || scale > 0;
+      if (!ok)
+        return Result::fail(msg);
+    }
+  if (!any_scale)
+    return Result::reject(cat("all-zero reference results workload ", workload));
+  // Object reuse must not matter at all: the LAST result of the history (shown above to agree with the multi-threaded one) against
+  // a FRESH object that is given the settings of that moment, with one thread.  A difference here is history dependence
+  // that exists without any threading (the message says so; observed difference on the unchanged tree: exactly 0).
+  if (!child_mode() && !Rf.records.empty())
+    {
+      const Record& last = Rf.records.back();
+      threads_via_stir(1);
+      std::vector<double> out;
+      try
+        {
+          std::unique_ptr<Family> fresh = make_family(c, dir, "f", &last.st);
+          fresh->exec(fresh->setup_code(), 0, 0, out);
+          out.clear();
+          fresh->exec(last.code, last.a, last.b, out);
+        }
+      catch (const stir_verif::AssertionFailure&)
+        {
+          throw;
+        }
+      catch (const std::exception& e)
+        {
+          return Result::fail(cat("a fresh object threw (", e.what(), ") for the operation that the reused object of the history [",
+                                  step_text(*fam, steps, last.step), "] performed with one thread"));
+        }
+      double scale = 0, md = 0;
+      for (double v : last.out)
+        scale = std::max(scale, std::fabs(v));
+      VF_CHECK(out.size() == last.out.size(), "fresh object: result size differs");
+      for (std::size_t i = 0; i < out.size(); ++i)
+        md = std::max(md, std::fabs(out[i] - last.out[i]));
+      stats().count("history end compared with a fresh object");
+      if (scale > 0)
+        stats().maxi(cat("max rel diff one-thread history vs fresh object, family ", workload_family(workload)), md / scale);
+      VF_CHECK(md <= (workload == 6 ? 0. : workload == 8 ? 1e-6 : 1e-4) * scale, "the reused object differs from a fresh object ALSO WITH ONE THREAD (history dependence, not a ",
+               "thread effect): step ", last.step, " (", fam->name(last.code), ") of the history [", step_text(*fam, steps, last.step), "]: max |diff| ", md, ", scale ",
+               scale);
+    }
+  stats().count("schedule_point_hits", g_perturb.hits.exchange(0));
+  stats().count("history steps", long(steps.size()));
+  stats().count("history results compared", long(T.records.size()));
+  stats().count("history: thread count lowered between steps", T.thread_changes_down);
+  stats().count("history: thread count raised between steps", T.thread_changes_up);
+  if (T.multi_site)
+    stats().cls("site hit by >=2 threads");
+  stats().cls(cat("history workload family ", workload_family(workload)));
+  if (T.thread_changes_down > 0)
+    stats().cls("history with a lowered thread count");
+  stats().count("history: thread count reset to the default by STIR's first setup_distributable_computation", T.implicit_resets);
+  stats().count("history: ... and thereby lowered without a new set_up of the projectors", T.implicit_reset_lowers);
+  if (child_mode())
+    std::cout << "C18CHILD " << json({ { "maxima", stats().maxima }, { "counters", stats().counters }, { "classes", stats().classes } }).dump() << std::endl;
+  return Result::pass();
+}
+
+//! runs the case in a fresh process (the binary re-executes itself with --replay): STIR's one-time reset of the thread
+//! count by the first setup_distributable_computation() can only be observed there.  env_threads > 0: OMP_NUM_THREADS of
+//! the child (= STIR's default number of threads), 0: unset (default = 90 % of the processors).
+Result
+check_history_in_child(const json& c)
+{
+  CaseDir dir;
+  const std::string casefile = dir.path + "/case.json", outfile = dir.path + "/out.txt";
+  {
+    json j;
+    j["property"] = "C18";
+    j["case"] = c;
+    std::ofstream f(casefile);
+    f << j.dump() << "\n";
+  }
+  const int env_threads = c.value("env_threads", 0);
+  // posix_spawn (no code of this multi-threaded process runs between fork and exec)
+  std::vector<std::string> env_strings;
+  for (char** e = environ; e && *e; ++e)
+    {
+      const std::string v(*e);
+      if (v.compare(0, 16, "OMP_NUM_THREADS=") == 0 || v.compare(0, 16, "VERIF_C18_CHILD=") == 0)
+        continue;
+      env_strings.push_back(v);
+    }
+  env_strings.push_back("VERIF_C18_CHILD=1");
+  if (env_threads > 0)
+    env_strings.push_back("OMP_NUM_THREADS=" + std::to_string(env_threads));
+  std::vector<char*> envp;
+  for (auto& v : env_strings)
+    envp.push_back(const_cast<char*>(v.c_str()));
+  envp.push_back(nullptr);
+  const char* argv[] = { "c18_child", "--replay", casefile.c_str(), nullptr };
+  posix_spawn_file_actions_t fa;
+  posix_spawn_file_actions_init(&fa);
+  posix_spawn_file_actions_addopen(&fa, 1, outfile.c_str(), O_CREAT | O_WRONLY | O_TRUNC, 0666);
+  posix_spawn_file_actions_adddup2(&fa, 1, 2);
+  pid_t pid = 0;
+  const int rc = posix_spawn(&pid, "/proc/self/exe", &fa, nullptr, const_cast<char* const*>(argv), envp.data());
+  posix_spawn_file_actions_destroy(&fa);
+  if (rc != 0)
+    throw std::logic_error("harness: posix_spawn failed");
+  int status = 0;
+  while (waitpid(pid, &status, 0) < 0 && errno == EINTR)
+    {
+    }
+  std::string last, line;
+  {
+    std::ifstream f(outfile);
+    while (std::getline(f, line))
+      {
+        if (line.compare(0, 9, "C18CHILD ") == 0)
+          {
+            try
+              {
+                const json m = json::parse(line.substr(9));
+                for (auto it = m["maxima"].begin(); it != m["maxima"].end(); ++it)
+                  stats().maxi(it.key(), it.value().get<double>());
+                for (auto it = m["counters"].begin(); it != m["counters"].end(); ++it)
+                  {
+                    stats().count(it.key(), it.value().get<long>());
+                    if (it.key() == std::string("excluded:") + SIG_E1)
+                      stats().excluded_known += it.value().get<long>();
+                  }
+                for (auto it = m["classes"].begin(); it != m["classes"].end(); ++it)
+                  if (it.key().compare(0, 24, "history workload family ") != 0)
+                    stats().cls(it.key(), it.value().get<long>());
+              }
+            catch (...)
+              {
+              }
+          }
+        else if (line.compare(0, 5, "PASS ") == 0 || line.compare(0, 5, "FAIL ") == 0 || line.compare(0, 7, "REJECT ") == 0 || line == "PASS")
+          last = line;
+        else if (!line.empty())
+          last = last.empty() || last.compare(0, 4, "PASS") != 0 ? line : last;
+      }
+  }
+  stats().cls("history in a fresh process");
+  stats().cls(cat("history workload family ", workload_family(c["workload"].get<int>())));
+  if (WIFEXITED(status) && WEXITSTATUS(status) == 0)
+    {
+      if (last.compare(0, 6, "REJECT") == 0)
+        return Result::reject(last.substr(std::min<std::size_t>(7, last.size())));
+      return Result::pass();
+    }
+  if (WIFEXITED(status) && WEXITSTATUS(status) == 3)
+    return Result::fail("in a fresh process (OMP_NUM_THREADS " + (env_threads > 0 ? std::to_string(env_threads) : std::string("unset")) + "): " + last);
+  return Result::fail(cat("the fresh process running the history died (", WIFSIGNALED(status) ? "signal " : "exit status ",
+                          WIFSIGNALED(status) ? WTERMSIG(status) : WEXITSTATUS(status), "); last output: ", last.substr(0, 300)));
+}
+
+Result
+check_fresh(const json& c)
+{
+  CaseDir dir;
+  const int workload = c["workload"].get<int>();
+  std::vector<double> ref;
+  try
+    {
+      ref = run_workload(c, 1, false, 0, dir.sub("r"));
+    }
+  catch (const stir_verif::AssertionFailure&)
+    {
+      throw;
+    }
+  catch (const std::logic_error&)
+    {
+      throw;
+    }
+  catch (const std::exception& e)
+    {
+      return Result::reject(std::string("single-thread run rejected: ") + std::string(e.what()).substr(0, 80));
     }
   double scale = 0;
   for (double v : ref)
     scale = std::max(scale, std::fabs(v));
   if (!(scale > 0))
-    return Result::reject(cat("all-zero reference result workload ", c["workload"].get<int>()));
+    return Result::reject(cat("all-zero reference result workload ", workload));
   const int threads = c["threads"].get<int>();
   const int reps = c["reps"].get<int>();
   bool multi_site = false;
@@ -326,39 +1708,105 @@ check(const json& c)
       std::vector<double> got;
       try
         {
-          got = run_workload(c, threads, true, c["pseed"].get<uint64_t>() + uint64_t(rep) * 7919ULL);
+          got = run_workload(c, threads, true, c["pseed"].get<uint64_t>() + uint64_t(rep) * 7919ULL, dir.sub("t"));
         }
       catch (const std::exception& e)
         {
           return Result::fail(cat("multi-threaded run (", threads, " threads, repetition ", rep, ") threw: ", e.what()));
         }
-      for (auto& m : g_perturb.site_thread_mask)
-        if (__builtin_popcountl(m.load()) >= 2)
-          multi_site = true;
-      VF_CHECK(got.size() == ref.size(), "result size differs: ", got.size(), " vs ", ref.size());
-      double maxdiff = 0;
-      std::size_t where = 0;
-      for (std::size_t i = 0; i < ref.size(); ++i)
-        {
-          const double d = std::fabs(got[i] - ref[i]);
-          if (!(d <= maxdiff))
-            {
-              maxdiff = d;
-              where = i;
-            }
-        }
-      stats().maxi(cat("max rel diff workload ", c["workload"].get<int>()), maxdiff / scale);
-      // float reassociation of per-thread partial sums: 1e-4 of the maximum (observed <= ~3e-6)
-      VF_CHECK(maxdiff <= 1e-4 * scale, "workload ", c["workload"].get<int>(), " with ", threads, " threads (repetition ", rep,
-               ") differs from the single-thread result: |diff|=", maxdiff, " at element ", where, " (", got[where], " vs ", ref[where],
-               "), scale ", scale);
+      multi_site = multi_site || site_hit_by_two();
+      std::string msg;
+      if (!compare(got, ref, workload, cat("workload ", workload, " with ", threads, " threads (repetition ", rep, ")"), msg))
+        return Result::fail(msg);
     }
   stats().count("schedule_point_hits", g_perturb.hits.exchange(0));
   if (multi_site)
     stats().cls("site hit by >=2 threads");
-  stats().cls(cat("workload ", c["workload"].get<int>()));
+  stats().cls(cat("workload ", workload));
   stats().cls(cat("threads ", threads <= 2 ? "2" : threads <= 4 ? "3-4" : threads <= 8 ? "5-8" : "9-16+"));
+  if (c.value("file_data", 0) != 0 && workload_family(workload) <= 1 && workload != 0)
+    stats().cls(cat("file-backed projection data, layout ", c.value("file_data", 0)));
   return Result::pass();
+}
+
+bool
+is_history(const json& c)
+{
+  return c.value("hist", 0) != 0 && c.contains("ops") && c.contains("init");
+}
+
+Result
+check(const json& c)
+{
+  vg::quiet();
+  if (!is_history(c))
+    return check_fresh(c);
+  if (child_mode())
+    return check_history_here(c);
+  const bool fresh_process = c.value("proc", 0) != 0;
+  const Result r = fresh_process ? check_history_in_child(c) : check_history_here(c);
+  if (r.kind == Result::PASS)
+    {
+      stats().cls("object-reuse history");
+      if (c.value("file_data", 0) != 0 && workload_family(c["workload"].get<int>()) == 1)
+        stats().cls(cat("file-backed projection data, layout ", c.value("file_data", 0)));
+    }
+  return r;
+}
+
+//! signature of the known-finding class: only cases that ask not to be rewritten ("rewrite": false, the probe) are
+//! classified; generated cases are rewritten at run time instead (see avoid_e1) and never rejected
+std::string
+known_signature(const json& c)
+{
+  if (!exclusions_on() || !is_history(c) || c.value("rewrite", true))
+    return "";
+  try
+    {
+      CaseDir dir;
+      std::unique_ptr<Family> fam = make_family(c, dir, "k");
+      const std::vector<Step> steps = decode_steps(c, *fam);
+      const bool child = c.value("proc", 0) != 0;
+      const int env_threads = c.value("env_threads", 0);
+      // in a fresh process the count starts at OMP_NUM_THREADS / the number of processors and STIR's flag is not set
+      const ThreadModel m0{ child ? (env_threads > 0 ? env_threads : int(std::thread::hardware_concurrency())) : 1, !child, 0 };
+      const int def = child && env_threads > 0 ? env_threads : stir::get_default_num_threads();
+      return history_in_e1(steps, *fam, m0, def) ? SIG_E1 : "";
+    }
+  catch (...)
+    {
+      return "";
+    }
+}
+
+json
+small_scatter_scanner(Src& s)
+{ // as in the C16 harness: block structure from divisors (Scanner::check_consistency), detector pitch ~ bin
+  json j;
+  const int ndet = 2 * int(s.range(3, 7)); // 6..14
+  const int rings = int(s.pick(std::vector<int>{ 2, 2, 3 }));
+  const double bin = s.nice_real(6., 20.);
+  j["type"] = -1;
+  j["ndet"] = ndet;
+  j["rings"] = rings;
+  const int a = s.pick(vg::divisors(ndet));
+  const int b = s.pick(vg::divisors(ndet / a));
+  j["tr_cryst_per_block"] = a;
+  j["tr_blocks_per_bucket"] = b;
+  const int d = s.pick(vg::divisors(rings));
+  const int e = s.pick(vg::divisors(rings / d));
+  j["ax_cryst_per_block"] = d;
+  j["ax_blocks_per_bucket"] = e;
+  j["singles_units"] = s.coin() ? 1 : 0;
+  j["max_tang"] = ndet - 1;
+  j["radius"] = std::floor(bin * ndet / 3.14159265 * 4.) / 4.;
+  j["doi"] = s.coin() ? 0. : s.nice_real(0., 5.);
+  j["ring_spacing"] = s.nice_real(10., 40.);
+  j["bin_size"] = bin;
+  j["tilt"] = 0.;
+  j["tof_poss"] = 0;
+  j["geometry"] = "Cylindrical";
+  return j;
 }
 
 json
@@ -382,7 +1830,7 @@ gen(Src& s, int size)
   c["image"] = vg::gen_image(s, io);
   c["dseed"] = s.seed64();
   c["pseed"] = s.seed64();
-  c["workload"] = int(s.range(0, 6));
+  c["workload"] = int(s.pick(std::vector<int>{ 0, 1, 1, 2, 3, 3, 4, 5, 5, 6, 7, 7, 8 }));
   c["threads"] = int(s.pick(std::vector<int>{ 2, 2, 3, 4, 4, 7, 8, 12, 16, 24 }));
   c["reps"] = int(s.range(2, 6));
   c["cache"] = int(s.range(0, 2));
@@ -396,6 +1844,43 @@ gen(Src& s, int size)
   c["subset"] = int(s.range(0, 95));
   c["use_add"] = s.coin();
   c["use_norm"] = s.coin();
+  // measured / additive / normalisation data: in memory or read from files written by the harness
+  c["file_data"] = int(s.pick(std::vector<int>{ 0, 0, 1, 2, 3, 3 }));
+  const int workload = c["workload"].get<int>();
+  if (workload == 7)
+    {
+      c["lm"] = { { "seed", s.seed64() }, { "n", int(s.range(20, 200)) }, { "cache", s.coin() ? 0L : s.range(5, 250) } };
+      c["reps"] = int(s.range(4, 8)); // cheap workload, and the one with real contention for single cache entries
+    }
+  if (workload == 8)
+    { // scatter simulation has its own preconditions on scanner, template and images (see make_scatter)
+      c["scanner"] = small_scatter_scanner(s);
+      const int ndet = c["scanner"]["ndet"], rings = c["scanner"]["rings"];
+      c["pdi"] = { { "span", 1 }, { "max_delta", s.chance(3, 4) ? rings - 1 : int(s.range(0, rings - 1)) }, { "views", ndet / 2 },
+                   { "tang", int(s.range(2, ndet - 1)) }, { "arccorr", false }, { "tof_mash", 0 }, { "trim", json::object() } };
+      c["scat"] = { { "nx", int(s.range(3, 6)) }, { "nz", int(s.range(2, 4)) }, { "extent", s.pick(std::vector<double>{ 0.4, 0.6, 0.8 }) },
+                    { "len", s.pick(std::vector<double>{ 0.5, 0.8, 1. }) }, { "p_zero", s.pick(std::vector<double>{ 0., 0.3 }) },
+                    { "low", s.pick(std::vector<double>{ 350., 425., 450. }) }, { "high", s.pick(std::vector<double>{ 600., 650. }) } };
+      c["reps"] = int(s.range(2, 3));
+    }
+  // (b) object-reuse history instead of fresh objects per repetition: 9 of 20 cases
+  const bool hist = s.chance(9, 20);
+  c["hist"] = hist ? 1 : 0;
+  if (hist)
+    {
+      const std::vector<int> counts{ 1, 2, 2, 3, 4, 4, 5, 7, 8, 8, 12, 16, 16 };
+      auto via = [&]() { return int(s.pick(std::vector<int>{ 0, 0, 0, 1, 1, 1, 1, 2 })); };
+      c["init"] = json::array({ s.pick(counts), via() });
+      json ops = json::array();
+      const int len = int(s.range(3, workload == 8 ? 5 : 4 + size / 12));
+      for (int k = 0; k < len; ++k)
+        ops.push_back(json::array({ s.pick(counts), via(), int(s.range(0, 999)), int(s.range(0, 999)), int(s.range(0, 999)) }));
+      c["ops"] = ops;
+      // a sample of the objective-function histories runs in a fresh process (STIR's one-time reset of the thread count)
+      const bool child = workload_family(workload) == 1 && s.chance(1, 4);
+      c["proc"] = child ? 1 : 0;
+      c["env_threads"] = child ? int(s.pick(std::vector<int>{ 0, 0, 1, 2, 3, 5, 8, 12 })) : 0;
+    }
   return c;
 }
 
@@ -404,7 +1889,68 @@ nontrivial(const json& c)
 {
   // threads >= 2 and at least as many work items (view x segment x TOF groups) as threads is not known from the
   // case alone; use views as a lower bound of work items
-  return c["threads"].get<int>() >= 2 && c["pdi"]["views"].get<int>() >= 2;
+  if (c["pdi"]["views"].get<int>() < 2)
+    return false;
+  if (!is_history(c))
+    return c["threads"].get<int>() >= 2;
+  // history: at least two different thread counts, one of them >= 2, and at least two steps
+  int lo = 1 << 30, hi = 0, n = 0;
+  auto see = [&](long t) {
+    lo = std::min<long>(lo, t);
+    hi = std::max<long>(hi, t);
+  };
+  see(c["init"][0].get<long>());
+  for (const json& o : c["ops"])
+    if (o.is_array() && o.size() >= 5)
+      {
+        ++n;
+        if (o[1].get<long>() % 3 != 2)
+          see(std::labs(o[0].get<long>()));
+      }
+  return n >= 2 && hi >= 2 && lo < hi;
+}
+
+//! corner histories that every run executes: the thread count is lowered WITHOUT a new set_up between two uses of the same
+//! back projector (directly, inside an objective function, through STIR's own reset in a fresh process), file-backed data
+//! in the gradient / Hessian workloads, list-mode objective function, lazy tables re-armed between look-ups
+std::vector<json>
+fixed_cases(int)
+{
+  const json base = json::parse(R"({"cache": 2, "dseed": 1480935306757403, "file_data": 0, "hist": 1, "image": {"nx": 5, "ny": 9, "nz_extra": 1,
+    "ox": 0.0, "oy": 0.0, "vx_rel": 1.0, "vy_rel": 2.0, "vy_same": true, "z_div": 1, "z_shift_planes": 0}, "intensity": 1, "lors": 1, "lowprio": 1,
+    "pdi": {"arccorr": false, "max_delta": 1, "span": 3, "tang": 12, "tof_mash": 0, "trim": {}, "views": 8}, "pseed": 1353336884124251, "reps": 2,
+    "scanner": {"ax_blocks_per_bucket": 1, "ax_cryst_per_block": 1, "bin_size": 4.9375, "doi": 10.875, "geometry": "Cylindrical", "max_tang": 13,
+    "ndet": 16, "radius": 364.5, "ring_spacing": 5.375, "rings": 2, "singles_units": 0, "tilt": 0.0, "tof_poss": 0, "tr_blocks_per_bucket": 2,
+    "tr_cryst_per_block": 4, "type": -1}, "subset": 30, "subsets": 4, "sym": 31, "threads": 2, "use_add": true, "use_norm": true, "workload": 1,
+    "proc": 0, "env_threads": 0})");
+  std::vector<json> v;
+  auto add = [&](int workload, json init, json ops, int file_data, int proc, int env_threads) {
+    json c = base;
+    c["workload"] = workload;
+    c["init"] = init;
+    c["ops"] = ops;
+    c["file_data"] = file_data;
+    c["proc"] = proc;
+    c["env_threads"] = env_threads;
+    if (workload == 7)
+      c["lm"] = { { "seed", 77 }, { "n", 120 }, { "cache", 0 } };
+    v.push_back(c);
+  };
+  typedef FamProjectors P;
+  typedef FamObjective O;
+  typedef FamListMode L;
+  // projector pair: back projection with 8 threads, then with 2 (omp_set_num_threads), 1 (stir::set_num_threads), no set_up
+  add(1, { 8, 0 }, { { 8, 2, P::BACK, 0, 0 }, { 2, 0, P::BACK, 0, 0 }, { 2, 2, P::FWD, 1, 0 }, { 1, 1, P::BACK, 0, 17 }, { 5, 1, P::CLEAR_CACHE, 0, 0 }, { 5, 2, P::BACK, 0, 0 } }, 2, 0, 0);
+  // objective function: set_up (sensitivities) with 8 threads, gradient / Hessian / direct back projection with fewer
+  add(3, { 8, 1 }, { { 8, 2, O::GRAD, 0, 0 }, { 3, 1, O::GRADPLUS, 0, 1 }, { 3, 2, O::HESS, 1, 0 }, { 2, 0, O::PAIR_BACK, 0, 0 }, { 2, 2, O::HESS_APPROX, 0, 2 }, { 1, 0, O::VALUE, 0, 0 } }, 3, 0, 0);
+  add(5, { 16, 0 }, { { 4, 0, O::HESS, 0, 0 }, { 4, 2, O::SET_NSUB, 1, 0 }, { 2, 1, O::GRAD, 1, 1 }, { 2, 2, O::SENS, 0, 1 } }, 1, 0, 0);
+  // the same in a fresh process: projectors set up with 12 threads, STIR's first setup_distributable_computation() lowers to 3
+  add(3, { 12, 0 }, { { 12, 2, O::GRAD, 0, 0 }, { 12, 2, O::HESS, 0, 1 }, { 12, 2, O::PAIR_BACK, 0, 0 } }, 0, 1, 3);
+  add(4, { 7, 2 }, { { 7, 2, O::GRADPLUS, 0, 0 }, { 7, 2, O::PAIR_BACK, 0, 0 } }, 0, 1, 0);
+  // list-mode objective function and the lazily built tables
+  add(7, { 8, 1 }, { { 8, 2, L::GRADPLUS, 0, 0 }, { 2, 0, L::GRADPLUS, 1, 1 }, { 2, 2, L::HESS, 0, 0 }, { 16, 1, L::VALUE, 0, 0 }, { 3, 0, L::SET_UP, 0, 0 }, { 3, 2, L::GRAD, 0, 2 } }, 1, 0, 0);
+  add(6, { 1, 0 }, { { 16, 0, FamTables::QUERY, 0, 0 }, { 16, 2, FamTables::REARM, 0, 0 }, { 3, 1, FamTables::QUERY_TABLES_FIRST, 0, 0 } }, 0, 0, 0);
+  return v;
 }
 
 } // namespace
@@ -417,5 +1963,8 @@ the_property()
   p.gen = gen;
   p.check = check;
   p.nontrivial = nontrivial;
+  p.fixed_cases = fixed_cases;
+  p.shrink_lists = { "ops" };
+  p.known_signature = known_signature;
   return p;
 }
